@@ -117,7 +117,7 @@ class Check:
         self.outcomes = []
         self.funcs = set()
         self.stats = collections.Counter()
-        self.known = [k for k in load_known_findings() if k.get("property") == pid and k.get("status", "open") == "open"]
+        self.known = [k for k in load_known_findings() if (k.get("property") == pid or pid in k.get("also", ())) and k.get("status", "open") == "open"]
         self.known_hit = collections.OrderedDict()
         self.violations = []
         self.harness_errors = []
